@@ -63,6 +63,9 @@ class Cache:
     #     None.
     # Lock _subbuilds_lock - The lock guarding access to _subbuilds. If the
     #     cache is immutable, this is contextlib.nullcontext() instead.
+    # list<str> _started_files - The non-norm-cased filenames passed to
+    #     start_building_file, i.e. the files we built or rebuilt rather than
+    #     reusing a cached result. This is guarded by _files_lock.
 
     # A (sanitized) JSON object indicating the current version of the file
     # format used to store Cache objects, as in "write" and read_immutable. We
@@ -102,6 +105,7 @@ class Cache:
             self._subbuilds_lock = null_context
             self._created_dirs_lock = null_context
 
+        self._started_files = []
         self._norm_cased_files = {}
         for filename, operation in files.items():
             self._norm_cased_files[os.path.normcase(filename)] = operation
@@ -188,6 +192,17 @@ class Cache:
                 norm_cased_filename, filename)
             self._files[filename] = None
             self._norm_cased_files[norm_cased_filename] = None
+            self._started_files.append(filename)
+
+    def started_files(self):
+        """Return the files passed to ``start_building_file``.
+
+        This is a list of the non-norm-cased filenames of the files we
+        started building or rebuilding, as opposed to those for which we
+        reused a cached result.
+        """
+        with self._files_lock:
+            return list(self._started_files)
 
     def finish_building_file(self, operation):
         """Record the result of building the specified file.
